@@ -145,9 +145,61 @@ def strings_part(chk, n, seed, name="c18"):
     return jobs
 
 
+def str_record(d, **tags):
+    return dict({"ev": "Str", "w": [len(ch.encode("utf-8")) for ch in d["v"]], "len": d["len"], "bytes": d["bytes"], "table": d["table"]}, **tags)
+
+
+def boundary_part(chk, tier):
+    """positions at and beyond the end (what they yield is left open by std/str.md): whatever comes back, a str value must
+    be well-formed - decided by the acceptor XrStrRepr on (character widths, len, bytes, table)."""
+    texts = ["abcd\u00e9", "a\U0001F600", "\u20acuro", "\u00e9\u00e9", "ab", "\u4e2d\u00e9x\U0001F600y", "x\u0301\u00df"]
+    if tier != "quick":
+        texts += ["\U0001F600\U0001F600a", "a\u00e9b\u4e2dc\U0001F600", "\u00df\u00df\u00df\u00df"]
+    jobs, metas = [], {}
+    for ti, t in enumerate(texts):
+        n, nb = len(t), len(t.encode("utf-8"))
+        lines, names = ["let t = %s;\n" % json.dumps(t, ensure_ascii=False)], []
+        for a in range(0, n + 2):
+            for b in range(a, nb + 4):
+                nm = "r%d_%d" % (a, b)
+                lines.append("let %s = t.substring(%d, %d);\nlet l%s = %s.len();\nlet u%s = (%s + \"\u00e9\").len();\n" % (nm, a, b, nm, nm, nm, nm))
+                names += [nm, "l" + nm, "u" + nm]
+            lines.append("let q%d = t.substring(%d);\n" % (a, a))
+            names.append("q%d" % a)
+        jobs.append({"id": "bd%d" % ti, "src": "".join(lines), "observe": names, "limits": {"calls": 500000}})
+        metas["bd%d" % ti] = t
+    res = vf.run_jobs(jobs, "c18-bound")
+    recs = []
+    for j in jobs:
+        o = res[j["id"]]
+        if vf.job_outcome(o) != "ok":
+            chk.violation("substring boundary program: %s %s" % (vf.job_outcome(o), str(o.get("compile", {}).get("msg") or o.get("inst") or o.get("crash"))[:300]),
+                          {"kind": "str", "source": j["src"], "observed": vf.job_outcome(o)})
+            continue
+        for nm in j["observe"]:
+            d = o["values"].get(nm) or {}
+            chk.count(1)
+            if d.get("t") == "str":
+                recs.append(str_record(d, _job=j["id"], _bind=nm))
+                ln, un = o["values"].get("l" + nm, {}), o["values"].get("u" + nm, {})
+                if nm.startswith("r") and (str(ln.get("v")) != str(len(d["v"])) or str(un.get("v")) != str(len(d["v"]) + 1)):
+                    chk.violation("%s = %r.%s is %r but its len() is %s and the len() of it + \"\u00e9\" is %s" %
+                                  (nm, metas[j["id"]], "substring(%s)" % nm[1:].replace("_", ", "), d["v"], ln.get("v"), un.get("v")),
+                                  {"kind": "str", "source": j["src"], "binding": "l" + nm, "expected": {"t": "int", "v": str(len(d["v"]))}, "observed": ln},
+                                  finding_key="str:substring-boundary")
+    chk.nontrivial("boundary")
+    for t in vf.accept_records(chk, "XrStrRepr", recs, "c18-strrepr"):
+        src = [j["src"] for j in jobs if j["id"] == t["_job"]][0]
+        chk.violation("str value %s of %r is ill-formed: %s" % (t["_bind"], metas[t["_job"]], json.dumps({k: v for k, v in t.items() if not k.startswith("_")})),
+                      {"kind": "str-repr", "source": src, "binding": t["_bind"], "record": {k: v for k, v in t.items() if not k.startswith("_")}},
+                      finding_key="str:repr")
+    chk.part("boundaries", texts=len(texts), values_validated=len(recs))
+
+
 def run(chk, tier, seed):
     rnd = random.Random(seed)
     jobs = strings_part(chk, 2500 if tier == "quick" else 10000, seed)
+    boundary_part(chk, tier)
     # literals
     lits = literal_cases(rnd, 400 if tier == "quick" else 5000)
     lj = []
@@ -208,6 +260,11 @@ def replay(chk, path):
     chk.nontrivial("replay")
     chk.nontrivial(rp["source"])
     chk.sample({"source": rp["source"][:300], "outcome": oc})
+    if rp.get("kind") == "str-repr" and oc == "ok":
+        d = o["values"].get(names[0]) or {}
+        if d.get("t") == "str" and vf.accept_records(chk, "XrStrRepr", [str_record(d)], "c18-replay-repr"):
+            chk.violation("still ill-formed", rp)
+        return chk.finish()
     got = poolcheck.norm(o.get("values", {}).get(names[0])) if oc == "ok" else None
     exp = rp.get("expected")
     if oc != "ok" or (isinstance(exp, dict) and not poolcheck.same_val(exp, got)) or (isinstance(exp, str) and got.get("v") != exp):
